@@ -591,11 +591,19 @@ func newObservedMap(pass *analysishelper.EnhancedPass, files []*ast.File) *Obser
 									readDeepNilability()
 								case *ast.ArrayType:
 									readDeepNilability()
-								case *ast.Ident: // type alias - do nothing
-								case *ast.SelectorExpr: // type alias - do nothing
+								case *ast.Ident, *ast.SelectorExpr:
+									// A type name on the right-hand side: `type A = B` is a type alias and
+									// declares no new named type - do nothing. `type A B` however defines a
+									// new named type with its own annotation site (that is the site read for
+									// values of type `A`, see DeepNilabilityAsNamedType).
+									if !spec.Assign.IsValid() {
+										readDeepNilability()
+									}
 								case *ast.FuncType: // function type - do nothing (for now)
 								case *ast.ChanType:
-									// TODO - treat channel types as deeply nilable at the typedef level
+									// The elements received from a named channel type are read from the
+									// annotation site of the type name (see DeepNilabilityAsNamedType).
+									readDeepNilability()
 								case *ast.IndexExpr, *ast.IndexListExpr:
 									// TODO - handle generics
 								case *ast.ParenExpr:
